@@ -120,11 +120,23 @@ package types
 //@ spec recentsOk(S: store, c: str, latest: u64): bool = forall rn: u64, h: u64 :: present(S[recentSigner(c, rn, h)]) ==>
 //@        h <=u latest && (forall rn2: u64 :: present(S[recentSigner(c, rn2, h)]) ==> rn2 == rn)
 //@
+//@ // The acceptance conditions of the seal, as the property states them: sealed (a key is recoverable), by the header's
+//@ // coinbase, who is a member of the validator set V, with the difficulty of its turn after block `latest`; and the
+//@ // sealer has no recent-signer record above number - limit.
+//@ spec sealedBy(hp: obj, chain: obj, coinbase: str, V: obj, latest: u64, diff: u64): bool =
+//@        sealOk(hp, chain) && sealer(hp, chain) == addr20(coinbase) && valset(V)[sealer(hp, chain)] &&
+//@        diff == ite(inTurn(valset(V), latest, sealer(hp, chain)), 2, 1)
+//@ spec notRecent(S: store, c: str, a: str, number: u64, limit: i64): bool =
+//@        forall rn: u64, h: u64 :: present(S[recentSigner(c, rn, h)]) && addr20(val(S[recentSigner(c, rn, h)])) == a ==> !(h >u number - limit)
+//@ // the recent-signer keys in the store parse (they are only ever written by keyRecentSinger): reading them cannot fail
+//@ spec recentsReadable(S: store, c: str): bool
+//@
 //@ // the snapshot: the validator set of the client state as a set of addresses, and the recent-signer records of the
 //@ // client store as a map from block number to address
 //@ func (ClientState).snapshot(cdc, store) (snap, err)
 //@   props C17
 //@   let c = clientOf(store)
+//@   trusts readable: recentsReadable(tibc, c) ==> err == nil
 //@   trusts number: err == nil ==> snap != nil && snap.Number == self.Header.Height.RevisionHeight
 //@   trusts vals:   err == nil ==> domset(snap.Validators) == valset(self.Validators)
 //@   trusts card:   err == nil ==> len(snap.Validators) == nvals(self.Validators)
@@ -148,10 +160,11 @@ package types
 //@   let number = header.Height.RevisionHeight
 //@   let limit  = nvals(clientState.Validators) / 2 + 1
 //@   requires recents: recentsOk(tibc, c, number - 1)
-//@   ensures sound.sealed:  err == nil ==> sealOk(pack(header), chain) && signer == addr20(str(header.Coinbase))
-//@   ensures sound.member:  err == nil ==> valset(clientState.Validators)[signer]
-//@   ensures sound.recent:  err == nil ==> (forall rn: u64, h: u64 :: present(old(tibc)[recentSigner(c, rn, h)]) && addr20(val(old(tibc)[recentSigner(c, rn, h)])) == signer ==> !(h >u number - limit))
-//@   ensures sound.turn:    err == nil ==> header.Difficulty == ite(inTurn(valset(clientState.Validators), clientState.Header.Height.RevisionHeight, signer), 2, 1)
+//@   let latest = clientState.Header.Height.RevisionHeight
+//@   let sealed = sealedBy(pack(header), chain, str(header.Coinbase), clientState.Validators, latest, header.Difficulty)
+//@   ensures sound.sealed:  err == nil ==> sealed
+//@   ensures sound.recent:  err == nil ==> notRecent(old(tibc), c, signer, number, limit)
+//@   ensures complete:      len(header.Extra) >=s 65 && sealed && notRecent(old(tibc), c, signer, number, limit) && recentsReadable(old(tibc), c) ==> err == nil
 //@   ensures record:        err == nil ==> tibc == old(tibc)[recentSigner(c, header.Height.RevisionNumber, number) := signer]
 //@   ensures recents.kept:  err == nil && number != 0 ==> recentsOk(tibc, c, number)
 //@   loop #0 invariant seen: forall h: u64 :: visited(h) && mapval(snap.Recents, h) == str(signer) ==> !(h >u number - limit)
@@ -168,17 +181,24 @@ package types
 //@ func verifyCascadingFields(cdc, store, clientState, header) (err)
 //@   props C17
 //@   modifies tibc
+//@   let c      = clientOf(store)
 //@   let parent = clientState.Header
 //@   let number = header.Height.RevisionHeight
+//@   let chain  = bigof(clientState.ChainId)
+//@   let signer = sealer(pack(header), chain)
+//@   let limit  = nvals(clientState.Validators) / 2 + 1
 //@   let child  = parent.Height.RevisionHeight == number - 1 && bscHash(pack(parent)) == hash32(str(header.ParentHash))
 //@   let gdiff  = ite(parent.GasLimit >=u header.GasLimit, parent.GasLimit - header.GasLimit, header.GasLimit - parent.GasLimit)
 //@   let gas    = header.GasLimit <=u 0x7fffffffffffffff && header.GasUsed <=u header.GasLimit && gdiff <u parent.GasLimit / 256 && header.GasLimit >=u 5000
-//@   requires recents:    recentsOk(tibc, clientOf(store), parent.Height.RevisionHeight)
+//@   let sealed = sealedBy(pack(header), chain, str(header.Coinbase), clientState.Validators, parent.Height.RevisionHeight, header.Difficulty)
+//@   let fresh  = notRecent(old(tibc), c, signer, number, limit)
+//@   requires recents:    recentsOk(tibc, c, parent.Height.RevisionHeight)
 //@   requires parent.gas: parent.GasLimit <=u 0x7fffffffffffffff
-//@   ensures sound.child: err == nil ==> child
-//@   ensures sound.gas:   err == nil ==> gas
-//@   ensures sound.seal:  err == nil ==> ncalls(verifySeal) == 1 && (forall v in calls(verifySeal) :: v.err == nil && v.header == header && v.clientState == clientState && v.store == store)
-//@   ensures complete:    child && gas ==> ncalls(verifySeal) == 1 && (forall v in calls(verifySeal) :: v.err == err)
+//@   ensures sound:       err == nil ==> child && gas && sealed && fresh
+//@   ensures complete:    len(header.Extra) >=s 65 && child && gas && sealed && fresh && recentsReadable(old(tibc), c) ==> err == nil
+//@   ensures seal.once:   child && gas ==> ncalls(verifySeal) == 1 && (forall v in calls(verifySeal) :: v.err == err && v.header == header && v.clientState == clientState && v.store == store)
+//@   ensures record:      err == nil ==> tibc == old(tibc)[recentSigner(c, header.Height.RevisionNumber, number) := signer]
+//@   ensures recents.kept: err == nil && number != 0 ==> recentsOk(tibc, c, number)
 //@   ensures reject.pure: !(child && gas) ==> err != nil && tibc == old(tibc)
 //@
 //@ // stand-alone checks of a header: room for vanity and seal in Extra, zero mix digest, the empty-uncles hash, and a
@@ -193,19 +213,57 @@ package types
 //@ func verifyHeader(cdc, store, clientState, header) (err)
 //@   props C17
 //@   modifies tibc
+//@   let c       = clientOf(store)
+//@   let parent  = clientState.Header
 //@   let number  = header.Height.RevisionHeight
+//@   let chain   = bigof(clientState.ChainId)
+//@   let signer  = sealer(pack(header), chain)
+//@   let limit   = nvals(clientState.Validators) / 2 + 1
 //@   let isEpoch = number % clientState.Epoch == 0
 //@   let nbytes  = len(header.Extra) - 97
 //@   let basic   = len(header.Extra) >=s 97 && hash32(str(header.MixDigest)) == zeroarr(32) && hash32(str(header.UncleHash)) == str(uncleHash) && (number >u 0 ==> header.Difficulty != 0)
 //@   let extra   = ite(isEpoch, nbytes % 20 == 0, nbytes == 0)
+//@   let child   = parent.Height.RevisionHeight == number - 1 && bscHash(pack(parent)) == hash32(str(header.ParentHash))
+//@   let gdiff   = ite(parent.GasLimit >=u header.GasLimit, parent.GasLimit - header.GasLimit, header.GasLimit - parent.GasLimit)
+//@   let gas     = header.GasLimit <=u 0x7fffffffffffffff && header.GasUsed <=u header.GasLimit && gdiff <u parent.GasLimit / 256 && header.GasLimit >=u 5000
+//@   let sealed  = sealedBy(pack(header), chain, str(header.Coinbase), clientState.Validators, parent.Height.RevisionHeight, header.Difficulty)
+//@   let fresh   = notRecent(old(tibc), c, signer, number, limit)
 //@   requires epoch:      clientState.Epoch != 0
-//@   requires recents:    recentsOk(tibc, clientOf(store), clientState.Header.Height.RevisionHeight)
-//@   requires parent.gas: clientState.Header.GasLimit <=u 0x7fffffffffffffff
-//@   ensures sound.basic:   err == nil ==> basic
-//@   ensures sound.extra:   err == nil ==> extra
-//@   ensures sound.cascade: err == nil ==> ncalls(verifyCascadingFields) == 1 && (forall v in calls(verifyCascadingFields) :: v.err == nil && v.header == header && v.clientState == clientState && v.store == store)
-//@   ensures complete:      basic && extra ==> ncalls(verifyCascadingFields) == 1 && (forall v in calls(verifyCascadingFields) :: v.err == err)
-//@   ensures reject.pure:   !(basic && extra) ==> err != nil && tibc == old(tibc)
+//@   requires recents:    recentsOk(tibc, c, parent.Height.RevisionHeight)
+//@   requires parent.gas: parent.GasLimit <=u 0x7fffffffffffffff
+//@   ensures sound:       err == nil ==> basic && extra && child && gas && sealed && fresh
+//@   ensures complete:    basic && extra && child && gas && sealed && fresh && recentsReadable(old(tibc), c) ==> err == nil
+//@   ensures record:      err == nil ==> tibc == old(tibc)[recentSigner(c, header.Height.RevisionNumber, number) := signer]
+//@   ensures recents.kept: err == nil && number != 0 ==> recentsOk(tibc, c, number)
+//@   ensures reject.pure: !(basic && extra && child && gas) ==> err != nil && tibc == old(tibc)
+//@
+//@ // checkValidity: the stand-alone checks (again) and verifyHeader
+//@ func checkValidity(cdc, store, clientState, consState, header) (err)
+//@   props C17
+//@   modifies tibc
+//@   let c       = clientOf(store)
+//@   let parent  = clientState.Header
+//@   let number  = header.Height.RevisionHeight
+//@   let chain   = bigof(clientState.ChainId)
+//@   let signer  = sealer(pack(header), chain)
+//@   let limit   = nvals(clientState.Validators) / 2 + 1
+//@   let isEpoch = number % clientState.Epoch == 0
+//@   let nbytes  = len(header.Extra) - 97
+//@   let basic   = len(header.Extra) >=s 97 && hash32(str(header.MixDigest)) == zeroarr(32) && hash32(str(header.UncleHash)) == str(uncleHash) && (number >u 0 ==> header.Difficulty != 0)
+//@   let extra   = ite(isEpoch, nbytes % 20 == 0, nbytes == 0)
+//@   let child   = parent.Height.RevisionHeight == number - 1 && bscHash(pack(parent)) == hash32(str(header.ParentHash))
+//@   let gdiff   = ite(parent.GasLimit >=u header.GasLimit, parent.GasLimit - header.GasLimit, header.GasLimit - parent.GasLimit)
+//@   let gas     = header.GasLimit <=u 0x7fffffffffffffff && header.GasUsed <=u header.GasLimit && gdiff <u parent.GasLimit / 256 && header.GasLimit >=u 5000
+//@   let sealed  = sealedBy(pack(header), chain, str(header.Coinbase), clientState.Validators, parent.Height.RevisionHeight, header.Difficulty)
+//@   let fresh   = notRecent(old(tibc), c, signer, number, limit)
+//@   requires epoch:      clientState.Epoch != 0
+//@   requires recents:    recentsOk(tibc, c, parent.Height.RevisionHeight)
+//@   requires parent.gas: parent.GasLimit <=u 0x7fffffffffffffff
+//@   ensures sound:       err == nil ==> basic && extra && child && gas && sealed && fresh
+//@   ensures complete:    basic && extra && child && gas && sealed && fresh && recentsReadable(old(tibc), c) ==> err == nil
+//@   ensures record:      err == nil ==> tibc == old(tibc)[recentSigner(c, header.Height.RevisionNumber, number) := signer]
+//@   ensures recents.kept: err == nil && number != 0 ==> recentsOk(tibc, c, number)
+//@   ensures reject.pure: !(basic && extra && child && gas) ==> err != nil && tibc == old(tibc)
 //@
 //@ // the validators listed in the Extra field of an epoch header (the 20-byte groups between vanity and seal)
 //@ spec parsedVals(extra: str): obj
